@@ -883,7 +883,476 @@ Proof.
         -- reflexivity.
       * rewrite (apply_create_noparent _ _ Ht4 Ep) in *. simpl fst in Eff. simpl snd. simpl res_ok. cbv iota.
         intros H. inversion H; subst. apply KI_set_hf.
-        eapply KI_datasame; [| | | | |exact K4]; try reflexivity. intros d' t' k'. unfold w5. now rewrite Eff.
+        eapply KI_datasame; [| | | | |exact K4]; try reflexivity. intros d' t' k'. exact (f_equal (fun s => s (PData d' t' k')) Eff).
     + rewrite Er. simpl. intros H. inversion H; subst. apply KI_set_hf.
-      eapply KI_datasame; [| | | | |exact K4]; try reflexivity. intros d' t' k'. unfold w5. now rewrite Eff.
+      eapply KI_datasame; [| | | | |exact K4]; try reflexivity. intros d' t' k'. exact (f_equal (fun s => s (PData d' t' k')) Eff).
+Qed.
+
+Lemma parts_KI F v l : forall w w' st, KI w -> parts F v l w = (w', st) -> KI w'.
+Proof.
+  induction l as [|fp l IH]; simpl; intros w w' st K H.
+  - inversion H; subst; auto.
+  - destruct (part F v fp w) as [w1 st1] eqn:E. apply part_KI in E; auto.
+    destruct st1; [eapply IH; eauto | inversion H; subst; auto].
+Qed.
+
+Lemma call_KI F v l w w' ok : KI w -> call F v l w = (w', ok) -> KI w'.
+Proof.
+  unfold call. intros K. destruct (w_hf w); [intros H; inversion H; subst; auto|].
+  destruct (parts F v l w) as [w1 st] eqn:E. intros H; inversion H; subst. eapply parts_KI; eauto.
+Qed.
+
+Lemma calls_KI F v cs : forall w w' outs, KI w -> calls F v cs w = (w', outs) -> KI w'.
+Proof.
+  induction cs as [|c cs IH]; simpl; intros w w' outs K H.
+  - inversion H; subst; auto.
+  - destruct (call F v c w) as [w1 ok] eqn:E. destruct (calls F v cs w1) as [w2 oks] eqn:E2.
+    inversion H; subst. eapply IH; [|eauto]. eapply call_KI; eauto.
+Qed.
+
+Lemma close_call_KI F v w : KI w -> KI (close_call F v w).
+Proof. intros K. apply (roll_KI F v w K). Qed.
+
+Lemma init_KI F v rc w ok : init F v rc W0 = (w, ok) -> ok = true -> KI w.
+Proof.
+  intros H Hok Hu. pose proof (ds_init _ _ _ _ _ _ H) as D.
+  assert (Ec : w_cur w = None /\ w_hf w = false).
+  { (* init never touches these fields *)
+    clear D Hu. revert H. unfold init.
+    assert (Z1 : w_cur W0 = None) by reflexivity. assert (Z2 : w_hf W0 = false) by reflexivity.
+    destruct (probe _ _); try (intros H; inversion H; subst; auto; fail).
+    assert (PC : forall p l w0 w1 st, props_create_lows F p l w0 = (w1, st) -> w_cur w1 = w_cur w0 /\ w_hf w1 = w_hf w0).
+    { induction l as [|kd l IH]; simpl; intros w0 w1 st E; [inversion E; auto|].
+      rewrite (surjective_pairing (issue F _ w0)) in E. destruct (res_ok _).
+      - apply IH in E. now rewrite issue_cur, issue_hf in E.
+      - inversion E; subst. now rewrite issue_cur, issue_hf. }
+    assert (PL : forall p l w0 w1 b, props_close_lows F p l w0 = (w1, b) -> w_cur w1 = w_cur w0 /\ w_hf w1 = w_hf w0).
+    { induction l as [|kd l IH]; simpl; intros w0 w1 b E; [inversion E; auto|].
+      rewrite (surjective_pairing (issue F _ w0)) in E.
+      destruct (props_close_lows F p l _) as [w2 b2] eqn:E2. inversion E; subst.
+      apply IH in E2. now rewrite issue_cur, issue_hf in E2. }
+    destruct (v_props v).
+    - rewrite (surjective_pairing (issue F (Probe _) W0)).
+      rewrite (surjective_pairing (issue F (CreateExcl _) _)).
+      destruct (negb _); [intros H; inversion H; subst; auto|].
+      destruct (props_create_lows F _ _ _) as [w3 st] eqn:E3. apply PC in E3. rewrite !issue_cur, !issue_hf in E3.
+      destruct st; [|intros H; inversion H; subst; auto].
+      destruct (props_close_lows F _ _ w3) as [w4 ok4] eqn:E4. apply PL in E4.
+      rewrite (surjective_pairing (issue F (CloseFd _ 0) w4)).
+      destruct (ok4 && _); [intros H; inversion H; subst; rewrite issue_cur, issue_hf; destruct E4 as [A1 A2], E3 as [B1 B2]; split; congruence|].
+      destruct (v_close v); intros H; inversion H; subst; simpl; rewrite ?issue_cur, ?issue_hf;
+        destruct E4 as [A1 A2], E3 as [B1 B2]; split; congruence.
+    - rewrite (surjective_pairing (issue F (Probe _) W0)).
+      rewrite (surjective_pairing (issue F (CreateTrunc _) _)).
+      destruct (negb _); [intros H; inversion H; subst; auto|].
+      destruct (props_create_lows F _ _ _) as [w3 st] eqn:E3. apply PC in E3. rewrite !issue_cur, !issue_hf in E3.
+      destruct st; [|intros H; inversion H; subst; rewrite issue_cur, issue_hf; auto].
+      destruct (props_close_lows F _ _ w3) as [w4 ok4] eqn:E4. apply PL in E4.
+      rewrite (surjective_pairing (issue F (CloseFd _ 0) w4)).
+      destruct (ok4 && _).
+      + rewrite (surjective_pairing (issue F (Rename _ _) _)).
+        destruct (res_ok _); intros H; inversion H; subst; rewrite ?issue_cur, ?issue_hf;
+          destruct E4 as [A1 A2], E3 as [B1 B2]; split; congruence.
+      + intros H; inversion H; subst; rewrite ?issue_cur, ?issue_hf; destruct E4 as [A1 A2], E3 as [B1 B2]; split; congruence. }
+  destruct Ec as [Ec Eh]. split.
+  - intros d k n E. rewrite D in E. discriminate.
+  - intros _. unfold TmpOK. rewrite Ec. intros d k Hx. rewrite D in Hx. exfalso; apply Hx; reflexivity.
+Qed.
+
+(* under ANY fault oracle: unless a fault hit an operation whose result the code does not examine
+   (ghost flag w_ud), every data file under a final name at the end is a whole file *)
+Theorem no_bad_final_file F v rc :
+  w_ud (rs_w (wrun F v rc)) = false -> FinalsOK (w_fs (rs_w (wrun F v rc))).
+Proof.
+  unfold wrun. destruct (init F v rc W0) as [w1 ok] eqn:Ei. destruct ok.
+  - destruct (calls F v (r_calls rc) w1) as [w2 outs] eqn:Ec. simpl. intros Hu.
+    pose proof (init_KI _ _ _ _ _ Ei eq_refl) as K1.
+    pose proof (calls_KI _ _ _ _ _ _ K1 Ec) as K2.
+    apply (close_call_KI F v w2 K2 Hu).
+  - simpl. intros _ d k n E. rewrite (ds_init _ _ _ _ _ _ Ei) in E. discriminate.
+Qed.
+
+(* ---------------------------------------------------------------- refutations (witnesses) *)
+(* one call, one file; HDF5 issues one write inside the close *)
+Definition wit_rec : recording :=
+  mkRec [LW] [LW] [[mkPart 10 10000 [(LW, PhCreate)] [LW] 7]; [mkPart 10 11000 [(LW, PhCreate)] [LW] 8]].
+(* operations: 1-8 properties file (probe, create, write, write, close, rename = 6) ... *)
+Definition wit_fault_rollover : fault := Build_fault 11 false.   (* the write inside the close of the first file *)
+Definition wit_fault_final : fault := Build_fault 18 false.      (* the write inside the final close *)
+
+Definition silent_loss_free (v : variant) : Prop :=
+  forall F rc, let r := wrun F v rc in
+  rs_init r = true -> forallb (fun b => b) (rs_out r) = true ->
+  forall d k t, last_tag (all_parts rc) d k = Some t ->
+                w_fs (rs_w r) (PData d false k) = Some (File (Complete t)).
+
+Definition no_bad_final_full (v : variant) : Prop :=
+  forall F rc, FinalsOK (w_fs (rs_w (wrun F v rc))).
+
+Example wit_ops : List.length (trace_of (mkVar Staged Checked) wit_rec) = 20%nat.
+Proof. vm_compute. reflexivity. Qed.
+
+Example wit_op11 : nth 10 (trace_of (mkVar Staged Checked) wit_rec) (Mkdir (PDir 0)) = Write (PData 10 true 10000)
+                /\ nth 17 (trace_of (mkVar Staged Checked) wit_rec) (Mkdir (PDir 0)) = Write (PData 10 true 11000).
+Proof. vm_compute. split; reflexivity. Qed.
+
+(* results of the close path ignored: the damaged file is published and nobody is told *)
+Lemma no_bad_final_ignored_refuted : ~ no_bad_final_full (mkVar Staged Ignored).
+Proof.
+  intros H. specialize (H wit_fault_rollover wit_rec 10 10000 (File (Partial true))).
+  assert (E : w_fs (rs_w (wrun wit_fault_rollover (mkVar Staged Ignored) wit_rec)) (PData 10 false 10000)
+              = Some (File (Partial true))) by (vm_compute; reflexivity).
+  destruct (H E) as [t Ht]. discriminate Ht.
+Qed.
+
+Lemma silent_loss_ignored_refuted : ~ silent_loss_free (mkVar Staged Ignored).
+Proof.
+  intros H. specialize (H wit_fault_rollover wit_rec). cbv zeta in H.
+  assert (A : rs_init (wrun wit_fault_rollover (mkVar Staged Ignored) wit_rec) = true) by (vm_compute; reflexivity).
+  assert (B : forallb (fun b => b) (rs_out (wrun wit_fault_rollover (mkVar Staged Ignored) wit_rec)) = true)
+    by (vm_compute; reflexivity).
+  assert (E : w_fs (rs_w (wrun wit_fault_rollover (mkVar Staged Ignored) wit_rec)) (PData 10 false 10000)
+              = Some (File (Partial true))) by (vm_compute; reflexivity).
+  assert (L : last_tag (all_parts wit_rec) 10 10000 = Some 7) by (vm_compute; reflexivity).
+  specialize (H A B 10 10000 7 L). rewrite E in H. discriminate H.
+Qed.
+
+(* results examined: no bad file, but a failure inside the final close is still silent *)
+Lemma silent_loss_checked_refuted : ~ silent_loss_free (mkVar Staged Checked).
+Proof.
+  intros H. specialize (H wit_fault_final wit_rec). cbv zeta in H.
+  assert (A : rs_init (wrun wit_fault_final (mkVar Staged Checked) wit_rec) = true) by (vm_compute; reflexivity).
+  assert (B : forallb (fun b => b) (rs_out (wrun wit_fault_final (mkVar Staged Checked) wit_rec)) = true)
+    by (vm_compute; reflexivity).
+  assert (E : w_fs (rs_w (wrun wit_fault_final (mkVar Staged Checked) wit_rec)) (PData 10 false 11000) = None)
+    by (vm_compute; reflexivity).
+  assert (L : last_tag (all_parts wit_rec) 10 11000 = Some 8) by (vm_compute; reflexivity).
+  specialize (H A B 10 11000 8 L). rewrite E in H. discriminate H.
+Qed.
+
+(* the same fault at a roll-over is reported by the call, later calls are refused, nothing bad is published *)
+Example checked_rollover_reported :
+  rs_out (wrun wit_fault_rollover (mkVar Staged Checked) wit_rec) = [true; false] /\
+  w_fs (rs_w (wrun wit_fault_rollover (mkVar Staged Checked) wit_rec)) (PData 10 false 10000) = None /\
+  w_fs (rs_w (wrun wit_fault_rollover (mkVar Staged Checked) wit_rec)) (PData 10 true 10000) = None /\
+  w_ud (rs_w (wrun wit_fault_rollover (mkVar Staged Checked) wit_rec)) = false.
+Proof. vm_compute. repeat split; reflexivity. Qed.
+
+(* ---------------------------------------------------------------- a fault that is neither reported nor
+   unexamined has no effect: everything accepted is published *)
+Definition Good (w : W) : Prop := w_hf w = false /\ w_ud w = false.
+
+Lemma good_back w w' : Grows w w' -> Good w' -> Good w.
+Proof.
+  intros [Gh Gu] [Hh Hu]. split; apply not_true_false; intros E.
+  - rewrite (Gh E) in Hh. discriminate.
+  - rewrite (Gu E) in Hu. discriminate.
+Qed.
+
+Lemma roll_good F v w o d k :
+  w_cur w = Some o -> w_name w = Some (d, k) -> w_fs w (PData d true k) = Some (File (Partial false)) ->
+  Good (roll F v w) ->
+  w_cur (roll F v w) = None /\ w_name (roll F v w) = Some (d, k) /\
+  w_fs (roll F v w) (PData d false k) = Some (File (Complete (of_tag o))) /\
+  (forall d' k', (d', k') <> (d, k) -> w_fs (roll F v w) (PData d' false k') = w_fs w (PData d' false k')).
+Proof.
+  intros Ec En Ht G. unfold roll in *.
+  pose proof (good_back _ _ (grows_publish F v (close_handles F v w)) G) as [Hha Hua].
+  destruct (close_handles_good F v w o d k Ec En Hha Hua Ht) as (Ef & Eca & Ena).
+  set (wa := close_handles F v w) in *.
+  destruct G as [Hh Hu]. unfold publish in *. rewrite Ena in *.
+  assert (Ex : exists_at (w_fs wa) (PData d true k) = true) by (unfold exists_at; now rewrite Ef, upd_same).
+  rewrite Ex, Hha in *.
+  rewrite (surjective_pairing (issue F (Rename (PData d true k) (PData d false k)) wa)) in *.
+  destruct (issue_cases F (Rename (PData d true k) (PData d false k)) wa) as [[Eff Er] | [Eff Er]].
+  - rewrite Er in *. simpl apply in *. rewrite Ef, upd_same in *. simpl in *.
+    rewrite issue_cur, issue_name, Eca, Ena. repeat split; auto.
+    + rewrite Eff. apply upd_same.
+    + intros d' k' Hne. rewrite Eff.
+      rewrite upd_other by (intros E; inversion E; subst; apply Hne; reflexivity).
+      rewrite upd_other by discriminate. rewrite upd_other by discriminate. reflexivity.
+  - rewrite Er in *. simpl res_ok in *. cbv iota in *. exfalso.
+    destruct (mark_bad v (fst (issue F (Rename (PData d true k) (PData d false k)) wa))); congruence.
+Qed.
+
+(* a piece that completes in a run whose flags stay clear does what the fault-free piece does *)
+Lemma part_pub F v fp w w' done :
+  KI w -> Pub done w -> part F v fp w = (w', Go) -> Good w' -> Pub (done ++ [fp]) w'.
+Proof.
+  intros K HP H G.
+  pose proof (good_back _ _ (grows_part _ _ _ _ _ _ H) G) as [Hh Hu].
+  destruct (K Hu) as [FO TO]. specialize (TO Hh).
+  revert H. unfold part. set (d := fp_d fp). set (k := fp_k fp).
+  destruct (same_name (w_name w) d k) eqn:Esn.
+  - apply same_name_true in Esn.
+    destruct (w_cur w) as [o0|] eqn:Ec; [|discriminate]. intros H.
+    unfold TmpOK in TO. rewrite Ec in TO. destruct TO as (d0 & k0 & Hn & Ht & _).
+    rewrite Esn in Hn. inversion Hn; subst d0 k0.
+    destruct G as [Hh' Hu'].
+    destruct (do_lows_good _ _ _ _ _ _ _ H Hh' Hu' Ht) as (E1 & E2 & E3 & _).
+    intros d' k' tg Hl. rewrite last_tag_snoc in Hl. fold d k in Hl.
+    unfold is_cur. rewrite E2, E3. simpl. rewrite Esn.
+    destruct ((d =? d') && (k =? k')) eqn:E.
+    + inversion Hl; subst. eexists; split; reflexivity.
+    + specialize (HP d' k' tg Hl). unfold is_cur in HP. rewrite Ec, Esn, E in HP. now rewrite E1.
+  - set (w1 := match w_cur w with Some _ => publish F v (close_handles F v w) | None => w end).
+    destruct (w_hf w1) eqn:Hh1; [discriminate|].
+    rewrite (surjective_pairing (issue F (Mkdir (PDir d)) w1)).
+    destruct (mkdir_failed _); [discriminate|].
+    set (w2 := fst (issue F (Mkdir (PDir d)) w1)).
+    set (w3 := set_name (Some (d, k)) w2).
+    destruct (exists_at (w_fs w3) (PData d false k)) eqn:Ef; [discriminate|].
+    rewrite (surjective_pairing (issue F (Probe (PData d true k)) w3)).
+    destruct (res_ok (snd (issue F (Probe (PData d true k)) w3))); [discriminate|].
+    set (w4 := fst (issue F (Probe (PData d true k)) w3)).
+    rewrite (surjective_pairing (issue F (CreateExcl (PData d true k)) w4)).
+    destruct (res_ok (snd (issue F (CreateExcl (PData d true k)) w4))) eqn:Er5; [|discriminate].
+    set (w5 := fst (issue F (CreateExcl (PData d true k)) w4)).
+    set (w6 := set_cur (Some (mkOpen (fp_close fp) (fp_tag fp))) w5).
+    intros H.
+    (* the created file is intact, so the low-level operations leave the file system alone *)
+    assert (Ht6 : w_fs w6 (PData d true k) = Some (File (Partial false)) /\
+                  forall d' k', w_fs w6 (PData d' false k') = w_fs w4 (PData d' false k')).
+    { change (w_fs w6) with (w_fs w5). unfold w5.
+      destruct (issue_cases F (CreateExcl (PData d true k)) w4) as [[Eff Er] | [Eff Er]]; rewrite Er in Er5.
+      - rewrite Eff. simpl in *. destruct (w_fs w4 (PData d true k)); [discriminate|].
+        destruct (match w_fs w4 (PDir d) with Some Dir => true | _ => false end); [|discriminate].
+        simpl. split; [apply upd_same|]. intros d' k'. now rewrite upd_other by discriminate.
+      - discriminate. }
+    destruct Ht6 as [Ht6 Hf6]. destruct G as [Hh' Hu'].
+    destruct (do_lows_good _ _ _ _ _ _ _ H Hh' Hu' Ht6) as (E1 & E2 & E3 & _).
+    assert (Hf4 : forall d' k', w_fs w4 (PData d' false k') = w_fs w1 (PData d' false k')).
+    { intros d' k'. unfold w4. rewrite (ds_probe F _ w3). change (w_fs w3) with (w_fs w2).
+      unfold w2. apply ds_issue_nodata; simpl; intros; discriminate. }
+    (* the roll-over published the previous file *)
+    assert (HP1 : forall d' k' tg, last_tag done d' k' = Some tg ->
+                                   w_fs w1 (PData d' false k') = Some (File (Complete tg))).
+    { intros d' k' tg Hl. specialize (HP d' k' tg Hl). unfold is_cur in HP.
+      destruct (w_cur w) as [o0|] eqn:Ec.
+      - unfold TmpOK in TO. rewrite Ec in TO. destruct TO as (d0 & k0 & Hn & Ht & _).
+        rewrite Hn in HP.
+        assert (G1 : Good (roll F v w)).
+        { fold (roll F v w) in w1. split; [exact Hh1|]. apply not_true_false. intros E.
+          assert (Gr : Grows w1 w').
+          { eapply grows_trans; [|eapply grows_do_lows; eauto]. unfold w6, w5, w4, w3, w2. gtrans. }
+          destruct Gr as [_ Gr]. rewrite (Gr E) in Hu'. discriminate. }
+        destruct (roll_good F v w o0 d0 k0 Ec Hn Ht G1) as (_ & _ & Efin & Eoth).
+        unfold w1. fold (roll F v w).
+        destruct ((d0 =? d') && (k0 =? k')) eqn:E.
+        + apply andb_prop in E as [A B]. apply Z.eqb_eq in A, B. subst d' k'.
+          destruct HP as (o & Ho & Htg). inversion Ho; subst o. now rewrite Efin, Htg.
+        + rewrite Eoth; auto. intros E'. inversion E'; subst. now rewrite !Z.eqb_refl in E.
+      - exact HP. }
+    intros d' k' tg Hl. rewrite last_tag_snoc in Hl. fold d k in Hl.
+    unfold is_cur. rewrite E2, E3. change (w_cur w6) with (Some (mkOpen (fp_close fp) (fp_tag fp))).
+    assert (En6 : w_name w6 = Some (d, k)) by reflexivity. rewrite En6.
+    destruct ((d =? d') && (k =? k')) eqn:E.
+    + inversion Hl; subst. eexists; split; reflexivity.
+    + rewrite E1, Hf6, Hf4. apply HP1; auto.
+Qed.
+
+Lemma parts_pub F v l : forall w w' done,
+  KI w -> Pub done w -> parts F v l w = (w', Go) -> Good w' -> Pub (done ++ l) w'.
+Proof.
+  induction l as [|fp l IH]; simpl; intros w w' done K HP H G.
+  - inversion H; subst. now rewrite app_nil_r.
+  - destruct (part F v fp w) as [w1 st1] eqn:E. destruct st1; [|discriminate].
+    pose proof (part_KI _ _ _ _ _ _ K E) as K1.
+    pose proof (good_back _ _ (grows_parts _ _ _ _ _ _ H) G) as G1.
+    pose proof (part_pub _ _ _ _ _ _ K HP E G1) as HP1.
+    specialize (IH _ _ _ K1 HP1 H G). now rewrite <- app_assoc in IH.
+Qed.
+
+Lemma call_pub F v l w w' done :
+  KI w -> Pub done w -> call F v l w = (w', true) -> Good w' -> Pub (done ++ l) w'.
+Proof.
+  unfold call. intros K HP. destruct (w_hf w); [discriminate|].
+  destruct (parts F v l w) as [w1 st] eqn:E. destruct st; [|discriminate].
+  intros H G. inversion H; subst. eapply parts_pub; eauto.
+Qed.
+
+Lemma calls_pub F v cs : forall w w' outs done,
+  KI w -> Pub done w -> calls F v cs w = (w', outs) -> forallb (fun b => b) outs = true -> Good w' ->
+  Pub (done ++ concat cs) w'.
+Proof.
+  induction cs as [|c cs IH]; simpl; intros w w' outs done K HP H Hall G.
+  - inversion H; subst. now rewrite app_nil_r.
+  - destruct (call F v c w) as [w1 ok] eqn:E. destruct (calls F v cs w1) as [w2 oks] eqn:E2.
+    inversion H; subst. simpl in Hall. apply andb_prop in Hall as [Hok Hall]. subst ok.
+    pose proof (call_KI _ _ _ _ _ _ K E) as K1.
+    pose proof (good_back _ _ (grows_calls _ _ _ _ _ _ E2) G) as G1.
+    pose proof (call_pub _ _ _ _ _ _ K HP E G1) as HP1.
+    specialize (IH _ _ _ _ K1 HP1 E2 Hall G). now rewrite <- app_assoc in IH.
+Qed.
+
+Lemma close_pub F v w done :
+  KI w -> Pub done w -> Good (close_call F v w) ->
+  forall d k t, last_tag done d k = Some t ->
+                w_fs (close_call F v w) (PData d false k) = Some (File (Complete t)).
+Proof.
+  intros K HP G d k t Hl. change (close_call F v w) with (roll F v w) in *.
+  pose proof (good_back _ _ (grows_roll F v w) G) as [Hh Hu].
+  destruct (K Hu) as [FO TO]. specialize (TO Hh). specialize (HP d k t Hl). unfold is_cur in HP.
+  unfold TmpOK in TO. destruct (w_cur w) as [o|] eqn:Ec.
+  - destruct TO as (d0 & k0 & Hn & Ht & _). rewrite Hn in HP.
+    destruct (roll_good F v w o d0 k0 Ec Hn Ht G) as (_ & _ & Efin & Eoth).
+    destruct ((d0 =? d) && (k0 =? k)) eqn:E.
+    + apply andb_prop in E as [A B]. apply Z.eqb_eq in A, B. subst d k.
+      destruct HP as (o' & Ho & Htg). inversion Ho; subst o'. now rewrite Efin, Htg.
+    + rewrite Eoth; auto. intros E'. inversion E'; subst. now rewrite !Z.eqb_refl in E.
+  - assert (Er : roll F v w = w).
+    { unfold roll, close_handles. rewrite Ec. unfold publish. destruct (w_name w) as [[d1 k1]|]; auto.
+      destruct (exists_at (w_fs w) (PData d1 true k1)) eqn:Ex; auto.
+      apply exists_at_true in Ex. apply TO in Ex. discriminate. }
+    rewrite Er. exact HP.
+Qed.
+
+(* under ANY fault oracle and variant: if the channel was created, no write call reported an error,
+   has_failure is clear at the end and no fault hit an unexamined operation, then every file
+   addressed is under its final name, complete, with its last image -- the fault had no effect *)
+Theorem fault_noop_or_reported F v rc :
+  let r := wrun F v rc in
+  rs_init r = true -> forallb (fun b => b) (rs_out r) = true ->
+  w_hf (rs_w r) = false -> w_ud (rs_w r) = false ->
+  forall d k t, last_tag (all_parts rc) d k = Some t ->
+                w_fs (rs_w r) (PData d false k) = Some (File (Complete t)).
+Proof.
+  unfold wrun. destruct (init F v rc W0) as [w1 ok] eqn:Ei. destruct ok; [|simpl; discriminate].
+  destruct (calls F v (r_calls rc) w1) as [w2 outs] eqn:Ec. simpl.
+  intros _ Hall Hh Hu.
+  pose proof (init_KI _ _ _ _ _ Ei eq_refl) as K1.
+  pose proof (calls_KI _ _ _ _ _ _ K1 Ec) as K2.
+  assert (G : Good (close_call F v w2)) by (split; auto).
+  pose proof (good_back _ _ (grows_close_call F v w2) G) as G2.
+  assert (HP1 : Pub [] w1) by (intros d k t Hl; discriminate).
+  pose proof (calls_pub _ _ _ _ _ _ _ K1 HP1 Ec Hall G2) as HP2.
+  apply (close_pub F v w2 _ K2 HP2 G).
+Qed.
+
+(* non-vacuity: a fault on a no-op operation (the O_RDWR probe of H5Fcreate) satisfies the hypotheses *)
+Example noop_fault_example :
+  let r := wrun (Build_fault 8 false) (mkVar Staged Checked) wit_rec in
+  rs_init r = true /\ rs_out r = [true; true] /\ w_hf (rs_w r) = false /\ w_ud (rs_w r) = false /\
+  snd (nth 7 (rev (w_trace (rs_w r))) (Mkdir (PDir 0), Ok)) = Err EINJ.
+Proof. vm_compute. repeat split; reflexivity. Qed.
+
+(* ---------------------------------------------------------------- when is the guard [w_ud = false] met?
+   With the close path examined (Checked) and the properties file staged, the ghost flag can only be
+   set by a fault inside an HDF5 call whose status the code does not look at (H5Dcreate2, attribute
+   writes, H5Dset_extent: phase PhMeta) or does not make sticky (index H5Dwrite: PhIndex).  For
+   recordings in which HDF5 issues no low-level operation there -- all logged runs -- it stays clear. *)
+Definition examined_only (fp : filepart) : Prop :=
+  Forall (fun x => snd x = PhCreate \/ snd x = PhData) (fp_pre fp).
+
+Lemma ud_mark_checked v w : v_close v = Checked -> w_ud (mark v w) = w_ud w.
+Proof. unfold mark. now intros ->. Qed.
+
+Lemma ud_do_lows F p l : forall w w' st,
+  Forall (fun x => snd x = PhCreate \/ snd x = PhData) l -> do_lows F p l w = (w', st) -> w_ud w' = w_ud w.
+Proof.
+  induction l as [|[kd ph] l IH]; simpl; intros w w' st Hf H.
+  - now inversion H.
+  - inversion Hf as [|x y Hx Hl]; subst. simpl in Hx.
+    rewrite (surjective_pairing (issue F (low_op kd p) w)) in H.
+    destruct (res_ok _); [apply (IH _ _ _ Hl) in H; now rewrite H, issue_ud|].
+    destruct Hx as [-> | ->]; inversion H; subst; simpl; now rewrite issue_ud.
+Qed.
+
+Lemma ud_close_lows F v p l : v_close v = Checked -> forall w, w_ud (close_lows F v p l w) = w_ud w.
+Proof.
+  intros Hv. induction l as [|kd l IH]; simpl; intros w; auto.
+  rewrite (surjective_pairing (issue F (low_op kd p) w)). rewrite IH.
+  destruct (res_ok _); rewrite ?ud_mark_checked, issue_ud; auto.
+Qed.
+
+Lemma ud_close_handles F v w : v_close v = Checked -> w_ud (close_handles F v w) = w_ud w.
+Proof.
+  intros Hv. unfold close_handles. destruct (w_cur w); auto. destruct (w_name w) as [[d k]|]; auto.
+  rewrite (surjective_pairing (issue F _ _)). simpl.
+  destruct (res_ok _); rewrite ?ud_mark_checked, issue_ud, ud_close_lows; auto.
+Qed.
+
+Lemma ud_publish F v w : v_close v = Checked -> w_ud (publish F v w) = w_ud w.
+Proof.
+  intros Hv. unfold publish. destruct (w_name w) as [[d k]|]; auto. destruct (exists_at _ _); auto.
+  destruct (w_hf w); [now rewrite issue_ud|].
+  rewrite (surjective_pairing (issue F _ _)). destruct (res_ok _); rewrite ?ud_mark_checked, issue_ud; auto.
+Qed.
+
+Lemma ud_part F v fp w w' st :
+  v_close v = Checked -> examined_only fp -> part F v fp w = (w', st) -> w_ud w' = w_ud w.
+Proof.
+  intros Hv He. unfold part. destruct (same_name _ _ _).
+  - destruct (w_cur w); intros H; [apply (ud_do_lows _ _ _ _ _ _ He) in H; now rewrite H | now inversion H].
+  - set (w1 := match w_cur w with Some _ => publish F v (close_handles F v w) | None => w end).
+    assert (U1 : w_ud w1 = w_ud w)
+      by (unfold w1; destruct (w_cur w); auto; now rewrite ud_publish, ud_close_handles).
+    destruct (w_hf w1); [intros H; now inversion H; subst|].
+    rewrite (surjective_pairing (issue F (Mkdir _) w1)).
+    destruct (mkdir_failed _); [intros H; inversion H; subst; simpl; now rewrite issue_ud|].
+    destruct (exists_at _ _); [intros H; inversion H; subst; simpl; now rewrite issue_ud|].
+    rewrite (surjective_pairing (issue F (Probe _) _)).
+    destruct (res_ok _); [intros H; inversion H; subst; simpl; now rewrite !issue_ud|].
+    rewrite (surjective_pairing (issue F (CreateExcl _) _)).
+    destruct (res_ok _); intros H.
+    + apply (ud_do_lows _ _ _ _ _ _ He) in H. rewrite H. simpl. now rewrite !issue_ud.
+    + inversion H; subst. simpl. now rewrite !issue_ud.
+Qed.
+
+Lemma ud_parts F v l : v_close v = Checked -> Forall examined_only l ->
+  forall w w' st, parts F v l w = (w', st) -> w_ud w' = w_ud w.
+Proof.
+  intros Hv. induction l as [|fp l IH]; simpl; intros Hf w w' st H.
+  - now inversion H.
+  - inversion Hf; subst. destruct (part F v fp w) as [w1 st1] eqn:E.
+    apply ud_part in E; auto. destruct st1; [rewrite (IH H3 _ _ _ H); auto | inversion H; subst; auto].
+Qed.
+
+Lemma ud_calls F v cs : v_close v = Checked -> Forall (Forall examined_only) cs ->
+  forall w w' outs, calls F v cs w = (w', outs) -> w_ud w' = w_ud w.
+Proof.
+  intros Hv. induction cs as [|c cs IH]; simpl; intros Hf w w' outs H.
+  - now inversion H.
+  - inversion Hf; subst. unfold call in H. destruct (w_hf w).
+    + destruct (calls F v cs w) as [w2 oks] eqn:E2. inversion H; subst. eapply IH; eauto.
+    + destruct (parts F v c w) as [w1 st] eqn:E1. destruct (calls F v cs w1) as [w2 oks] eqn:E2.
+      inversion H; subst. rewrite (IH H3 _ _ _ E2). eapply ud_parts; eauto.
+Qed.
+
+Lemma ud_init_staged F v rc w ok : v_props v = Staged -> init F v rc W0 = (w, ok) -> w_ud w = false.
+Proof.
+  intros Hv. unfold init. rewrite Hv. assert (Z0 : w_ud W0 = false) by reflexivity.
+  assert (PC : forall p l w0 w1 st, props_create_lows F p l w0 = (w1, st) -> w_ud w1 = w_ud w0).
+  { induction l as [|kd l IH]; simpl; intros w0 w1 st E; [now inversion E|].
+    rewrite (surjective_pairing (issue F _ w0)) in E. destruct (res_ok _).
+    - apply IH in E. now rewrite issue_ud in E.
+    - inversion E; subst. now rewrite issue_ud. }
+  assert (PL : forall p l w0 w1 b, props_close_lows F p l w0 = (w1, b) -> w_ud w1 = w_ud w0).
+  { induction l as [|kd l IH]; simpl; intros w0 w1 b E; [now inversion E|].
+    rewrite (surjective_pairing (issue F _ w0)) in E.
+    destruct (props_close_lows F p l _) as [w2 b2] eqn:E2. inversion E; subst.
+    apply IH in E2. now rewrite issue_ud in E2. }
+  destruct (probe _ _); try (intros H; inversion H; subst; reflexivity).
+  rewrite (surjective_pairing (issue F (Probe _) W0)).
+  rewrite (surjective_pairing (issue F (CreateTrunc _) _)).
+  destruct (negb _); [intros H; inversion H; subst; now rewrite !issue_ud|].
+  destruct (props_create_lows F _ _ _) as [w3 st] eqn:E3. apply PC in E3. rewrite !issue_ud in E3.
+  destruct st; [|intros H; inversion H; subst; now rewrite issue_ud].
+  destruct (props_close_lows F _ _ w3) as [w4 ok4] eqn:E4. apply PL in E4.
+  rewrite (surjective_pairing (issue F (CloseFd _ 0) w4)).
+  destruct (ok4 && _).
+  - rewrite (surjective_pairing (issue F (Rename _ _) _)).
+    destruct (res_ok _); intros H; inversion H; subst; rewrite ?issue_ud; congruence.
+  - intros H; inversion H; subst; rewrite ?issue_ud; congruence.
+Qed.
+
+Theorem checked_staged_guard F rc :
+  Forall (Forall examined_only) (r_calls rc) -> w_ud (rs_w (wrun F (mkVar Staged Checked) rc)) = false.
+Proof.
+  intros Hf. unfold wrun. destruct (init F _ rc W0) as [w1 ok] eqn:Ei.
+  pose proof (ud_init_staged F (mkVar Staged Checked) rc w1 ok eq_refl Ei) as U1.
+  destruct ok; [|exact U1].
+  destruct (calls F _ (r_calls rc) w1) as [w2 outs] eqn:Ec. simpl.
+  unfold close_call. rewrite ud_publish, ud_close_handles by reflexivity.
+  rewrite (ud_calls F (mkVar Staged Checked) _ eq_refl Hf _ _ _ Ec). exact U1.
 Qed.
